@@ -178,3 +178,33 @@ def safe_show(ip, o):
         return T.show(ip.to_term(o.state, o.value))
     except Exception as e:
         return '<%r>' % (e,)
+
+
+def loop_exhausted(ip, st, which=None):
+    """every iteration entered on this path ran until its iterator was exhausted: for each loop head with a summarised
+    iterator the position variable reached the end (the end variable of a reversed iteration, else the length of an
+    iterated sequence); for an uninterpreted `next` / `pop` (optionally restricted to callee names containing `which`)
+    the last call answered None"""
+    groups = {}
+    lens = []
+    for f in st.pc:
+        for t in T.subterms(f):
+            if t[0] == 'var' and ('iter.pos@' in t[1] or 'iter.end@' in t[1]):
+                head = t[1].split('@', 1)[1].split('#', 1)[0]
+                groups.setdefault(head, {})['pos' if 'iter.pos@' in t[1] else 'end'] = t
+            if t[0] == 'len' and t not in lens:
+                lens.append(t)
+    ok_any = False
+    for head, g in groups.items():
+        if 'pos' not in g:
+            return False
+        if 'end' in g:
+            if not ip.entails(st, le(g['end'], g['pos'])):
+                return False
+        elif not any(ip.entails(st, le(T.typed(n, 'usize'), g['pos'])) for n in lens):
+            return False
+        ok_any = True
+    nexts = [c for c in st.calls if (c[0].endswith('::next') or c[0].endswith('::pop')) and (which is None or which in c[0])]
+    if nexts:
+        return st.variants.get(('call', nexts[-1][0], nexts[-1][1])) == 0
+    return ok_any
